@@ -440,6 +440,27 @@ fn run_like_cfg(op: &str, c: Cfg, pats: &[Row], hays: &[Row]) -> String {
     })
 }
 
+/// starts_with / ends_with / contains on Binary / LargeBinary / BinaryView holding the same bytes
+/// (`binary_like.rs`, `binary_predicate.rs`)
+fn run_like_bin(op: &str, kind: usize, scalar: bool, sliced: bool, pats: &[Row], hays: &[Row]) -> String {
+    let f = like_fn(op);
+    let pats = pats.to_vec();
+    let hays = hays.to_vec();
+    guarded(move || {
+        let h = mk_bin(&hays, kind, sliced);
+        let r = if scalar {
+            f(&h, &Scalar::new(mk_bin(&pats[..1], kind, false)))
+        } else {
+            let full: Vec<Row> = if pats.len() == 1 { vec![pats[0].clone(); hays.len()] } else { pats.clone() };
+            f(&h, &mk_bin(&full, kind, false))
+        };
+        match r {
+            Ok(b) => show_tri(&bool_rows(&b)),
+            Err(e) => err_class(&e),
+        }
+    })
+}
+
 fn run_rx_cfg(var: usize, c: Cfg, flags: Option<&str>, pats: &[Row], hays: &[Row]) -> String {
     use arrow_string::regexp::*;
     let pats = pats.to_vec();
@@ -579,6 +600,20 @@ fn run_case(line: &str) -> Out {
                         }
                     }
                 }
+            }
+            if op == "sw" || op == "ew" || op == "ct" {
+                for kind in 0..3 {
+                    for scalar in [false, true] {
+                        if scalar && !one {
+                            continue;
+                        }
+                        let a2 = run_like_bin(op, kind, scalar, (kind + var) % 2 == 1, &pats, &hays);
+                        if a2 != ans {
+                            oracle.push(format!("encodings differ: {} gives {} but binary kind {} scalar {} gives {}", cfg_name(&c), ans, kind, scalar, a2));
+                        }
+                    }
+                }
+                tags.push_str(" binary-checked");
             }
             if op == "like" || op == "nlike" || op == "ilike" || op == "nilike" {
                 for p in pats.iter().flatten().take(3) {
